@@ -124,6 +124,8 @@ SPEC = {
         "valuenotifier Notifier/Listener: sequential histories with repeated values; Wait's flag check, select and re-check as separate steps; "
         "the entry's reference count and per-listener deregistered flags with Deregister = atomic Swap / close / removeListener for any "
         "number of overlapping callers",
+        "the whole valuenotifier as one concurrent system (Hive/Model/EventsNotifierConc.lean): map value -> channel, per-channel counts, "
+        "listeners, every critical section one step; also executed call by call on every vn line of the harness",
         "pooled hook delivery: submitting triggers, workers, queue, pending-tasks counter (Hive/Model/EventsPool.lean)",
         "event.Hook / Hook.Unhook / ForEach on the pointer-level ordered map + hook counter as a concurrent system, simulated by the abstract registry",
         "NOT modelled: the generic arities other than Event1 (generated from one template), "
@@ -147,7 +149,9 @@ SPEC = {
                 "removed — the assumptions of the weak-iteration model). Notifier: C15_notifier (sequential histories with repeated "
                 "values), C15_notifier_wait_race (any interleaving of Wait/Deregister/Notify/cancel incl. overlapping Deregister calls of "
                 "one listener; removeListener decrements the reference count unconditionally) and C15_notifier_count_exact (the count is "
-                "exact under any concurrency - derived from the atomic Swap): success only if Notify(value) lies "
+                "exact under any concurrency - derived from the atomic Swap), and C15_notifier_concurrent / _hit (the whole notifier: any values, "
+                "any listener generations, any pool of concurrent Listener / Notify / Deregister / Wait callers - the clause at the full "
+                "strength of its quantifier): success only if Notify(value) lies "
                 "between creation and deregistration; witnesses of the two repaired defects replayed on the code, and of the dependence on "
                 "the atomic Swap. Pooled hooks: C15_pooled_drained (any submitting triggers and workers: when the pending counter is 0 the "
                 "executed invocations are a permutation of the submitted ones). Registry refinement: C15_registry_simulation (pointer-level "
